@@ -65,9 +65,11 @@ struct vk_shared {
   int prefix_len;
   uint8_t prefix[VK_MAX_TRACE];
   int verbose;
+  int force_passthru;  /* differential validation: free-running execution (real blocking, real clock, autonomous helper) */
   int force_real_exec; /* differential validation: run this execution with the real exec although the harness asked for the emulated one */
   /* output */
   int emulated_exec_used;
+  int free_run_ok;     /* set by the harness: this configuration's default schedule can be compared with a free run */
   int ntrace;
   struct vk_choice trace[VK_MAX_TRACE];
   int used[K_NKINDS]; /* deviations taken so far, per kind */
@@ -157,6 +159,8 @@ struct vk_child {
   int werr[3];         /* errno of a failed W step */
   uint32_t echoed;     /* bytes an E step has copied from stdin to stdout so far */
   int closed_fd[3];    /* the helper closed its descriptor 0/1/2 */
+  int pending_sig;     /* a signal the library has sent (kill returned 0) whose effect on the child has not happened yet */
+  int autonomous;      /* free-running validation: the helper runs its script by itself */
   /* merged write order, for stderr->stdout: sequence of (fd,count) */
   struct { int fd; uint32_t n; } worder[64];
   int nworder;
@@ -196,7 +200,9 @@ int vk_api_begin(const char *fmt, ...) __attribute__((format(printf, 1, 2)));
 void vk_api_end(long r);
 void vk_forked_side_becomes_helper(void) __attribute__((noreturn));
 int vk_sched_point(const char *label);
-void vk_force_fault(int call, int err); /* the next parent-side call of this kind fails with err (harness-decided, not a choice point) */
+void vk_force_fault(int call, int err);
+void vk_autonomous_collect(struct vk_child *c); /* free-running validation: wait for the helper's report (what it read and wrote) */
+extern int vk_autonomous_gap_ms; /* the next parent-side call of this kind fails with err (harness-decided, not a choice point) */
 extern __thread int vk_calls_in_api; /* intercepted calls since the API call began (livelock guard) */ /* explicit scheduling point between API calls */
 
 /* ledgers */
